@@ -23,6 +23,7 @@ import rslex          # noqa: E402
 import rsparse        # noqa: E402
 import limbir         # noqa: E402
 import alggen         # noqa: E402
+import inventory      # noqa: E402
 from limbir import ItemSpec, TransErr   # noqa: E402
 
 CD = 'curve25519-dalek/src/'
@@ -750,8 +751,12 @@ def run(repo, outdir, quiet=False):
     if write_if_changed(p, '\n'.join(ctext)):
         written.append(p)
 
+    # syntactic inventory (drop / zeroize / wipe facts, panic sites): Inventory.lean
+    inv_manifest, inv_written, _inv = inventory.generate(repo, outdir, HEADER, write_if_changed, srcs)
+    written.extend(inv_written)
+
     # All.lean
-    mods = [m.name for m in MODULES] + ['Consts'] + [m.name for m in alggen.ALG_MODULES]
+    mods = [m.name for m in MODULES] + ['Consts'] + [m.name for m in alggen.ALG_MODULES] + ['Inventory']
     alltext = HEADER + ''.join('import Dalek.Gen.%s\n' % m for m in mods)
     p = os.path.join(outdir, 'All.lean')
     if write_if_changed(p, alltext):
@@ -815,10 +820,11 @@ def run(repo, outdir, quiet=False):
         'uncovered_fns': uncovered,
         'files': sorted(os.path.basename(x) for x in
                         [m.name + '.lean' for m in MODULES] + ['Consts.lean', 'All.lean', 'AllSh.lean',
-                                                               'gen_manifest.json']
+                                                               'gen_manifest.json', 'Inventory.lean']
                         + [m.name + '.lean' for m in alggen.ALG_MODULES]
                         + [m.name + 'Sh.lean' for m in alggen.ALG_MODULES]),
     }
+    manifest.update(inv_manifest)
     p = os.path.join(outdir, 'gen_manifest.json')
     if write_if_changed(p, json.dumps(manifest, indent=1, sort_keys=True) + '\n'):
         written.append(p)
@@ -840,6 +846,8 @@ def run(repo, outdir, quiet=False):
         cm = const_manifest[ns]
         if cm['status'] != 'ok':
             sys.stderr.write('rs2lean: FAILED constants %s: %s\n' % (ns, cm['message']))
+    for msg in inv_manifest['inventory_errors']:
+        sys.stderr.write('rs2lean: FAILED inventory %s\n' % msg)
     if not quiet:
         total = sum(len(results[m.name]) for m in MODULES) + nalg
         sys.stderr.write('rs2lean: %d/%d items ok, %d files (re)written\n' % (total - nfail, total, len(written)))
